@@ -1,5 +1,6 @@
 //! C07 harness: nearest-neighbour indices (linear scan, k-d tree, ball tree) of linfa-nn.
-//! A case carries an integer point set, one query point, a metric, lists of k values and radii
+//! A case carries an integer point set, one query point, a metric, lists of k values (negative = code
+//! for a huge k, see `k_of`) and radii
 //! (in eighths: r = r8 / 8, exactly representable), an optional scale `sc` (a power of two: the real
 //! coordinates are pts / sc, q / sc and the real radius r8 / (8 sc) -- sub-unit data, still exact in
 //! binary floating point; observations are multiplied back by sc) and a list of *sessions*; a session builds one
@@ -59,17 +60,79 @@ fn qvec<F: Float>(q: &[i64], sc: f64) -> Array1<F> {
 }
 
 /// all queries of the case on one built index
+// ------------------------------------------------------------------------------------------------
+// k values far beyond n.  A negative entry of `ks` is a code for a huge k:
+//   -1 = usize::MAX, -2 = usize::MAX / 2, -3 = 2^32, -4 = 10^12
+// Codes <= -3 are *isolated*: an index that allocates for k elements may hit an allocation failure,
+// which aborts the process (not a catchable panic).  Those queries are run in a child process (this
+// binary re-executed with `--probe`, once per case, rebuilding the case's sessions and running only
+// the isolated queries); the parent records the child's answers, or status "abort" for every query
+// the child did not answer before it died.
+
+fn k_of(code: i64) -> usize {
+    match code {
+        -1 => usize::MAX,
+        -2 => usize::MAX / 2,
+        -3 => 1usize << 32,
+        -4 => 1_000_000_000_000usize,
+        c if c >= 0 => c as usize,
+        c => panic!("unknown k code {}", c),
+    }
+}
+fn isolated(code: i64) -> bool {
+    code <= -3
+}
+
+#[derive(Default)]
+struct Probe {
+    child: bool,                              // this process is the probe child
+    sess: usize,                              // index of the session being run
+    answers: serde_json::Map<String, Value>,  // parent: "<session>:<code>" -> recorded query outcome
+    dead: bool,                               // parent: the child died at an earlier query of this case
+}
+thread_local! {
+    static PROBE: std::cell::RefCell<Probe> = std::cell::RefCell::new(Probe::default());
+}
+
+fn one_knn<F: Float>(ix: &dyn NearestNeighbourIndex<F>, q: &Array1<F>, k: i64, sc: f64) -> Value {
+    let r = guarded(|| ix.k_nearest(q.view(), k_of(k)).map(|v| enc(&v, sc)));
+    match r {
+        Ok(Ok(v)) => json!({"k": k, "st": "ok", "res": v}),
+        Ok(Err(_)) => json!({"k": k, "st": "err", "res": empty_res()}),
+        Err(m) => json!({"k": k, "st": "panic", "res": empty_res(), "msg": m}),
+    }
+}
+
 fn queries<F: Float>(ix: &dyn NearestNeighbourIndex<F>, inp: &Value, ev: &mut serde_json::Map<String, Value>) {
     let sc = scale_of(inp);
     let q: Array1<F> = qvec(&ivec(&inp["q"]), sc);
+    let (child, si) = PROBE.with(|p| (p.borrow().child, p.borrow().sess));
+    if child {
+        // probe child: only the isolated k values; every answer is written out at once
+        use std::io::Write;
+        for k in ivec(&inp["ks"]).into_iter().filter(|k| isolated(*k)) {
+            let v = one_knn(ix, &q, k, sc);
+            let mut o = std::io::stdout().lock();
+            let _ = writeln!(o, "{}", json!({"key": format!("{}:{}", si, k), "val": v}));
+            let _ = o.flush();
+        }
+        return;
+    }
     let mut knn = Vec::new();
     for k in ivec(&inp["ks"]) {
-        let r = guarded(|| ix.k_nearest(q.view(), k as usize).map(|v| enc(&v, sc)));
-        knn.push(match r {
-            Ok(Ok(v)) => json!({"k": k, "st": "ok", "res": v}),
-            Ok(Err(_)) => json!({"k": k, "st": "err", "res": empty_res()}),
-            Err(m) => json!({"k": k, "st": "panic", "res": empty_res(), "msg": m}),
-        });
+        if isolated(k) {
+            let got = PROBE.with(|p| p.borrow().answers.get(&format!("{}:{}", si, k)).cloned());
+            knn.push(match got {
+                Some(v) => v,
+                None => {
+                    // the first unanswered query is the one the child died in; later ones were never run
+                    let was_dead = PROBE.with(|p| std::mem::replace(&mut p.borrow_mut().dead, true));
+                    json!({"k": k, "st": if was_dead { "notrun" } else { "abort" }, "res": empty_res()})
+                }
+            });
+        } else {
+            knn.push(one_knn(ix, &q, k, sc));
+        }
     }
     ev.insert("knn".into(), Value::Array(knn));
     let mut rng = Vec::new();
@@ -294,10 +357,47 @@ fn with_metric<F: Float>(inp: &Value, se: &Value) -> Value {
     }
 }
 
+/// run the isolated queries of a case in a child process; returns "<session>:<code>" -> outcome
+fn probe_child(case: &Value) -> serde_json::Map<String, Value> {
+    use std::io::Write;
+    use std::process::{Command, Stdio};
+    let mut m = serde_json::Map::new();
+    let exe = std::env::current_exe().expect("current_exe");
+    let child = Command::new(exe).arg("--probe").stdin(Stdio::piped()).stdout(Stdio::piped()).stderr(Stdio::null()).spawn();
+    if let Ok(mut ch) = child {
+        if let Some(mut si) = ch.stdin.take() {
+            let _ = si.write_all(serde_json::to_string(case).unwrap().as_bytes());
+        }
+        if let Ok(o) = ch.wait_with_output() {
+            for l in String::from_utf8_lossy(&o.stdout).lines() {
+                if let Ok(v) = serde_json::from_str::<Value>(l) {
+                    if let (Some(k), Some(val)) = (v.get("key").and_then(|k| k.as_str()), v.get("val")) {
+                        m.insert(k.to_string(), val.clone());
+                    }
+                }
+            }
+        }
+    }
+    m
+}
+
 fn run(case: &Value) -> Vec<Value> {
     let inp = &case["inp"];
+    let child = PROBE.with(|p| p.borrow().child);
+    if !child {
+        let need = ivec(&inp["ks"]).iter().any(|k| isolated(*k));
+        let answers = if need { probe_child(case) } else { serde_json::Map::new() };
+        PROBE.with(|p| {
+            p.borrow_mut().answers = answers;
+            p.borrow_mut().dead = false;
+        });
+    }
     let mut out = Vec::new();
-    for se in geta(inp, "sess") {
+    for (si, se) in geta(inp, "sess").iter().enumerate() {
+        PROBE.with(|p| p.borrow_mut().sess = si);
+        if child && gets(se, "ix") == "tree" {
+            continue;
+        }
         out.push(match gets(se, "ft") {
             "f32" => with_metric::<f32>(inp, se),
             "f64" => with_metric::<f64>(inp, se),
@@ -308,5 +408,15 @@ fn run(case: &Value) -> Vec<Value> {
 }
 
 fn main() {
+    if std::env::args().nth(1).as_deref() == Some("--probe") {
+        // probe child: one case on stdin, answers on stdout (see `queries`)
+        silence_panics();
+        let mut txt = String::new();
+        std::io::Read::read_to_string(&mut std::io::stdin(), &mut txt).expect("stdin");
+        let case: Value = serde_json::from_str(&txt).expect("case json");
+        PROBE.with(|p| p.borrow_mut().child = true);
+        let _ = guarded(|| run(&case));
+        return;
+    }
     run_cases(run);
 }
